@@ -127,7 +127,7 @@ theorem recRun_pre (cfg : Cfg) : ∀ (n : Nat) (rd : Reader) (k : Kind) (v : Lis
     match preAll n rd k with
     | (its, .ready rd2) =>
         recRun cfg (its.length + F) rd v = (recRun cfg F rd2 v).prepend its ∧ rd2.norm = rd2
-    | (its, .err e rd2) => recRun cfg (its.length + F + 1) rd v = ⟨its, .err e, rd2.cidsEnd⟩
+    | (its, .err e rd2) => recRun cfg (its.length + F + 1) rd v = ⟨its, .err e, rd2.access⟩
     | (_, .stuck) => True := by
   intro n
   induction n with
@@ -171,8 +171,8 @@ theorem recRun_pre (cfg : Cfg) : ∀ (n : Nat) (rd : Reader) (k : Kind) (v : Lis
           rfl
         | stuck => trivial
 
-theorem post_norm {cfg : Cfg} {rd : Reader} {fit : FItem} (hn : rd.norm = rd) :
-    ∀ it rd', rd.post cfg fit = .item it rd' → rd'.norm = rd' := by
+theorem post_norm {rd : Reader} {fit : FItem} (hn : rd.norm = rd) :
+    ∀ it rd', rd.post fit = .item it rd' → rd'.norm = rd' := by
   intro it rd' h
   have h1 := post_nextKind it rd' h
   have h2 : rd.nextKind = none := by rw [← hn]; rfl
@@ -289,14 +289,13 @@ theorem recRun_eq_interp (cfg : Cfg) : ∀ (rs : List Rec) (t : Tail) (rd : Read
         conv => lhs; unfold recRun recRead
         rw [hv, this.2]
         simp only [hpro]
-        cases hpost : rd2.post cfg r.item with
+        cases hpost : rd2.post r.item with
         | item it rd3 =>
           simp only
           rw [ih t rd3 G (post_norm this.2 it rd3 hpost) (by omega)]
           simp [Output.prepend, Output.cons]
         | finished rd3 => simp [Output.prepend]
         | err e rd3 => simp [Output.prepend]
-        | oom rd3 => simp [Output.prepend]
 
 theorem empty_wf : Buffer.empty.wf := by simp [Buffer.wf, Buffer.len, Buffer.empty]
 
